@@ -6,8 +6,8 @@
    successful write of entry n.  The replayed state is the model's (entries, head). *)
 From ZV Require Import Base.Prelude Model.Journal.
 
-(* (client, kind, n, ok): kind 0 = ReadHead returning n, 1 = PutIfNotExists entry n with outcome ok,
-   2 = write HEAD := n *)
+(* (client, kind, n, ok): kind 0 = read of the HEAD hint returning n, 1 = PutIfNotExists entry n with
+   outcome ok, 2 = write HEAD := n, 3 = probe Exists(entry n) with answer ok *)
 Definition jevent := (nat * N * nat * bool)%type.
 
 Record tstate := { tlen : nat; thead : nat; tread : list (nat * nat); twrote : list (nat * nat) }.
@@ -18,7 +18,7 @@ Fixpoint lookup (k : nat) (l : list (nat * nat)) : option nat :=
 Definition tstep (s : tstate) (e : jevent) : option tstate :=
   let '(c, kind, n, ok) := e in
   match kind with
-  | 0%N => if Nat.eqb n (thead s)
+  | 0%N => if Nat.eqb n (thead s) && Nat.leb n (tlen s)
            then Some {| tlen := tlen s; thead := thead s; tread := (c, n) :: tread s; twrote := twrote s |}
            else None
   | 1%N =>
@@ -27,6 +27,15 @@ Definition tstep (s : tstate) (e : jevent) : option tstate :=
       if Nat.eqb n (S a) && Bool.eqb ok (Nat.eqb n (S (tlen s)))
       then Some {| tlen := if ok then S (tlen s) else tlen s; thead := thead s; tread := tread s;
                    twrote := if ok then (c, n) :: twrote s else twrote s |}
+      else None
+    | None => None
+    end
+  | 3%N =>
+    match lookup c (tread s) with
+    | Some a =>
+      if Nat.eqb n (S a) && Bool.eqb ok (Nat.leb n (tlen s))
+      then Some {| tlen := tlen s; thead := thead s;
+                   tread := if ok then (c, n) :: tread s else tread s; twrote := twrote s |}
       else None
     | None => None
     end
